@@ -5,12 +5,17 @@
 package xmlenc
 
 //@ import rsa "crypto/rsa"
+//@ import x509 "crypto/x509"
+//@ import io "io"
 
 //@ -- registry invariant: every registered decrypter / digest method is a non-nil interface value
 //@ mapinv decrypters nonnil
 //@ mapinv digestMethods nonnil
 
 //@ go func rsaKeyOK(key interface{}) bool { k, ok := key.(*rsa.PrivateKey); return !ok || (k != nil && k.N != nil) }
+//@ go func certOK(c interface{}) bool { k, ok := c.(*x509.Certificate); return !ok || k != nil }
+//@ go func sameSlice(a, b []byte) bool
+//@ go func keyIs(k interface{}, key []byte) bool { b, ok := k.([]byte); return ok && sameSlice(b, key) }
 //@ go func registered(alg string) bool { _, ok := decrypters[alg]; return ok }
 
 //@ contract stripPadding
@@ -26,6 +31,7 @@ package xmlenc
 //@ ensures[C10] prefix: forall(0, len(buf), func(k int) bool { return result[k] == buf[k] })
 //@ ensures[C10] last: int(result[len(result)-1]) == blockSize - len(buf)%blockSize
 
+//@ -- the padding round trip as a lemma over the two contracts above
 //@ go func lemmaPadRoundTrip(p []byte, bs int) ([]byte, error) { return stripPadding(appendPadding(p, bs)) }
 //@ contract lemmaPadRoundTrip
 //@ requires[cfg] bs: bs > 0 && bs <= 255
@@ -35,7 +41,6 @@ package xmlenc
 
 //@ contract Decrypt
 //@ requires[cfg] el: ciphertextEl != nil
-//@ ensures[C11] nilonerr: err != nil ==> true
 
 //@ contract getCiphertext
 //@ requires[cfg] el: encryptedKey != nil
@@ -57,6 +62,8 @@ package xmlenc
 //@ requires[cfg] el: ciphertextEl != nil
 //@ requires[cfg] key: rsaKeyOK(key)
 //@ requires[cfg] fn: e.keyDecrypter != nil
+//@ assert@call[C10,C11] field:xmlenc.RSA.keyDecrypter #1 (fn func(RSA, *rsa.PrivateKey, []byte) ([]byte, error), ea RSA, ka *rsa.PrivateKey) args_nonnil:
+//@    ea.DigestMethod != nil && ka != nil
 //@ assert@call[C10] field:xmlenc.RSA.keyDecrypter #1 (fn func(RSA, *rsa.PrivateKey, []byte) ([]byte, error), ea RSA) digest_absent:
 //@    ciphertextEl.FindElement("./EncryptionMethod/DigestMethod") == nil ==> ea.DigestMethod == DigestMethod(SHA1)
 //@ assert@call[C10] field:xmlenc.RSA.keyDecrypter #1 (fn func(RSA, *rsa.PrivateKey, []byte) ([]byte, error), ea RSA) digest_named:
@@ -66,13 +73,50 @@ package xmlenc
 //@ contract (CBC).Encrypt
 //@ requires[cfg] cipher: e.cipher != nil
 //@ requires[cfg] rand: RandReader != nil
+//@ ensures[C10,C08] nonnil: err == nil ==> result != nil
+//@ -- framing: what is encrypted is the padded plaintext, under an IV drawn in this call, and the
+//@ -- emitted cipher value is IV || ciphertext (the W3C xmlenc layout)
+//@ assert@call[C10] CryptBlocks #1 (mode cipher.BlockMode, dst []byte, src []byte) pads_plaintext:
+//@    len(src) >= len(plaintext) && forall(0, len(plaintext), func(k int) bool { return src[k] == plaintext[k] })
+//@ assert@call[C10,C08] Read #2 (r io.Reader, p []byte) uses iv []byte, block cipher.Block iv_drawn_here:
+//@    sameSlice(p, iv) && len(p) == block.BlockSize()
+//@ assert@call[C10,C08] NewCBCEncrypter #1 (b cipher.Block, ivArg []byte) uses iv []byte fresh_iv:
+//@    len(ivArg) == b.BlockSize() && sameSlice(ivArg, iv)
+//@ assert@call[C10] EncodeToString #1 (enc *base64.Encoding, out []byte) uses iv []byte, padded=plaintext []byte iv_prefix:
+//@    len(out) == len(iv) + len(padded) && forall(0, len(iv), func(k int) bool { return out[k] == iv[k] })
 
 //@ contract (GCM).Encrypt
 //@ requires[cfg] cipher: e.cipher != nil
 //@ requires[cfg] rand: RandReader != nil
+//@ ensures[C10] nonnil: err == nil ==> result != nil
+//@ assert@call[C10] Seal #1 (aead cipher.AEAD, dst []byte, n []byte, pt []byte) seals_plaintext:
+//@    len(pt) >= len(plaintext) && forall(0, len(plaintext), func(k int) bool { return pt[k] == plaintext[k] })
 
-//@ contract RegisterDecrypter
-//@ requires[cfg] d: d != nil
+//@ contract (RSA).Encrypt
+//@ requires[cfg] blockcipher: e.BlockCipher != nil && e.BlockCipher.KeySize() >= 0
+//@ requires[cfg] fn: e.keyEncrypter != nil
+//@ requires[cfg] rand: RandReader != nil
+//@ requires[cfg] cert: certOK(certificate)
+//@ -- the content-encryption key is drawn in this call, wrapped, and handed to the block cipher
+//@ assert@call[C10,C08] Read #1 (r io.Reader, p []byte) uses key []byte key_drawn_here:
+//@    sameSlice(p, key) && len(p) == e.BlockCipher.KeySize()
+//@ assert@call[C10,C08] field:xmlenc.RSA.keyEncrypter #1 (fn func(RSA, *rsa.PublicKey, []byte) ([]byte, error), ea RSA, pk *rsa.PublicKey, k []byte) uses key []byte wraps_fresh_key:
+//@    sameSlice(k, key) && len(k) == e.BlockCipher.KeySize()
+//@ assert@call[C10,C08] Encrypt #1 (bc BlockCipher, k interface{}, pt []byte) uses key []byte encrypts_with_that_key:
+//@    keyIs(k, key) && sameSlice(pt, plaintext)
 
-//@ contract RegisterDigestMethod
-//@ requires[cfg] dm: dm != nil
+//@ -- package initialisation: every algorithm identifier the package can emit has a registered decrypter
+//@ contract init
+//@ ensures[C10] reg_aes128cbc: registered(AES128CBC.(CBC).algorithm)
+//@ ensures[C10] reg_aes192cbc: registered(AES192CBC.(CBC).algorithm)
+//@ ensures[C10] reg_aes256cbc: registered(AES256CBC.(CBC).algorithm)
+//@ ensures[C10] reg_tripledes: registered(TripleDES.(CBC).algorithm)
+//@ ensures[C10] reg_aes128gcm: registered(AES128GCM.(GCM).algorithm)
+//@ ensures[C10] reg_oaep: registered(OAEP().algorithm)
+//@ ensures[C10] reg_pkcs1v15: registered(PKCS1v15().algorithm)
+//@ ensures[C10] reg_oaep_sha256: registered(OAEP_SHA256().algorithm)
+//@ ensures[C10] reg_oaep_sha512: registered(OAEP_SHA512().algorithm)
+//@ ensures[C10] keysizes: AES128CBC.(CBC).keySize == 16 && AES192CBC.(CBC).keySize == 24 && AES256CBC.(CBC).keySize == 32 &&
+//@    AES128GCM.(GCM).keySize == 16 && TripleDES.(CBC).keySize == 24
+//@ ensures[C10] digests: digestMethods[SHA1.algorithm] != nil && digestMethods[SHA256.algorithm] != nil &&
+//@    digestMethods[SHA512.algorithm] != nil && digestMethods[RIPEMD160.algorithm] != nil
